@@ -15,6 +15,7 @@ from __future__ import annotations
 
 import base64
 import itertools
+import re
 
 from mitmproxy.addons.upstream_auth import UpstreamAuth
 
@@ -52,7 +53,8 @@ MODES = {
     "reverse_http_ctls": "reverse:http://target.test:8000/",
     "reverse_https_ctls": "reverse:https://target.test:8443/",
 }
-PROXY_ALPHABET = ["abs", "abs_b", "c80", "c443"]
+PROXY_DIRECT = ["abs", "abs_b", "abs_https"]
+TUNNEL_ALPHABET = ["inner", "inner_abs", "inner_abs_https"]
 
 
 def cases(maxlen, thorough):
@@ -60,33 +62,28 @@ def cases(maxlen, thorough):
     for auth in ("set", "unset"):
         for strategy in ("eager", "lazy"):
             for mode in ("regular", "upstream_http", "upstream_https"):
-                seen = set()
-                for n in range(1, maxlen + 1):
-                    for seq in itertools.product(PROXY_ALPHABET, repeat=n):
-                        steps, tunnelled = [], False
-                        for s in seq:
-                            if tunnelled:
-                                steps.append("inner")
-                            else:
-                                steps.append(s)
-                                if s == "c443":
-                                    steps.append("tls")
-                                tunnelled = s in ("c80", "c443")
-                        if steps[-1] in ("c80", "tls"):
-                            steps.append("inner")  # a tunnel is always used at least once
-                        if tuple(steps) in seen:
-                            continue
-                        seen.add(tuple(steps))
-                        out.append({"mode": mode, "auth": auth, "strategy": strategy, "steps": steps})
+                # requests on the proxy connection itself (any absolute-form target scheme), then optionally one
+                # CONNECT tunnel (plain or TLS) carrying origin-form and absolute-form requests
+                for p in range(0, maxlen + 1):
+                    for prefix in itertools.product(PROXY_DIRECT, repeat=p):
+                        if p:
+                            out.append({"mode": mode, "auth": auth, "strategy": strategy, "steps": list(prefix)})
+                        for q in range(1, maxlen - p):
+                            for tunnel in (["c80"], ["c443", "tls"]):
+                                for suffix in itertools.product(TUNNEL_ALPHABET, repeat=q):
+                                    out.append({"mode": mode, "auth": auth, "strategy": strategy, "steps": list(prefix) + tunnel + list(suffix)})
             for mode in ("transparent80", "socks5_80", "reverse_http", "reverse_https"):
                 pre = ["socks80"] if mode == "socks5_80" else []
                 for n in range(1, maxlen + 1):
                     out.append({"mode": mode, "auth": auth, "strategy": strategy, "steps": pre + ["origin"] * n})
-                out.append({"mode": mode, "auth": auth, "strategy": strategy, "steps": pre + ["origin_abs", "origin"]})
+                for first in ("inner_abs", "inner_abs_https"):
+                    out.append({"mode": mode, "auth": auth, "strategy": strategy, "steps": pre + [first, "origin"]})
             for mode in ("transparent443", "socks5_443", "reverse_http_ctls", "reverse_https_ctls"):
                 pre = ["socks443"] if mode == "socks5_443" else []
                 for n in range(1, maxlen + 1):
                     out.append({"mode": mode, "auth": auth, "strategy": strategy, "steps": pre + ["tls"] + ["origin"] * n})
+                for first in ("inner_abs", "inner_abs_https"):
+                    out.append({"mode": mode, "auth": auth, "strategy": strategy, "steps": pre + ["tls", first, "origin"]})
     return out
 
 
@@ -95,8 +92,12 @@ def step_bytes(k, step):
         return b"GET http://origin.test/r%d HTTP/1.1\r\nHost: origin.test\r\n\r\n" % k
     if step == "abs_b":
         return b"GET http://other.test/r%d HTTP/1.1\r\nHost: other.test\r\n\r\n" % k
-    if step == "origin_abs":
+    if step == "abs_https":  # RFC 9112 3.2.2: a proxy must accept any absolute-form target, also https
+        return b"GET https://origin.test/r%d HTTP/1.1\r\nHost: origin.test\r\n\r\n" % k
+    if step == "inner_abs":  # absolute-form inside a tunnel / towards a non-proxy: servers must accept it too
         return b"GET http://origin.test/r%d HTTP/1.1\r\nHost: origin.test\r\n\r\n" % k
+    if step == "inner_abs_https":
+        return b"GET https://origin.test/r%d HTTP/1.1\r\nHost: origin.test\r\n\r\n" % k
     if step == "c80":
         return b"CONNECT origin.test:80 HTTP/1.1\r\nHost: origin.test:80\r\n\r\n"
     if step == "c443":
@@ -177,8 +178,16 @@ def judge(case, obs, t: Tally):
             fields = [(n.lower(), v) for n, v in ev["msg"]["fields"]]
             carrying = [n for n, v in fields if CRED in v]
             shape.append([addr[0], wh, carrying])
+            # which client step produced this upstream message (marker /rK), and what the client had wrapped it in
+            cstep, ctunnel = "-", "-"
+            mk = re.search(rb"/r(\d+)$", ev["msg"]["start"][1])
+            if mk and int(mk.group(1)) < len(case["steps"]):
+                k = int(mk.group(1))
+                cstep = case["steps"][k]
+                before = case["steps"][:k]
+                ctunnel = "tls" if "tls" in before else "plain" if "c80" in before else "none"
             f = dict(base, where=wh, header="+".join(sorted(set(x.decode() for x in carrying))) or "-",
-                     client_path="tunnel" if ev["tunnel"] else "direct")
+                     client_step=cstep, client_tunnel=ctunnel)
             allowed_hdr = None
             if case["auth"] == "set":
                 if kind == "upstream" and addr == PROXY and ev["tunnel"] == 0:
@@ -214,7 +223,7 @@ def run_case(case, t: Tally, verbose=False):
 
 
 def all_cases(thorough):
-    return cases(5 if thorough else 4, thorough)
+    return cases(4 if thorough else 3, thorough)
 
 
 def chunk_fn(chunk):
@@ -226,10 +235,11 @@ def chunk_fn(chunk):
 
 def run(ctx):
     stacks.client_hello("origin.test")  # built once in the parent: identical bytes in every worker
-    maxlen = ctx.pick(4, 5)
+    maxlen = ctx.pick(3, 4)
     cs = cases(maxlen, ctx.thorough)
     ctx.bounds = {"modes": list(MODES), "upstream_auth": ["set", "unset"], "connection_strategy": ["eager", "lazy"],
-                  "proxy_mode_alphabet": PROXY_ALPHABET + ["inner (after a CONNECT)"], "max_sequence_length": maxlen, "cases": len(cs)}
+                  "proxy_connection_alphabet": PROXY_DIRECT + ["c80", "c443+tls"], "inside_tunnel_alphabet": TUNNEL_ALPHABET,
+                  "max_sequence_length": maxlen, "cases": len(cs)}
     ctx.log("%d cases" % len(cs))
     par.pmap_tally(chunk_fn, cs, ctx.tally, nchunks=64)
 
